@@ -14,6 +14,7 @@ import (
 // escapes, class item order and escapes, redundant parentheses) and records, for every
 // node, the position (pigeon's line:col(offset) convention) of its first token.
 type Speller struct {
+	invClass bool // the class being spelled is inverted
 	t    *rapid.T
 	b    []byte
 	line int // 1-based line of the next rune
@@ -102,7 +103,12 @@ func (s *Speller) eos(last bool) {
 		}
 		return
 	}
-	switch k := s.u(6, "eos"); {
+	switch k := s.u(7, "eos"); {
+	case k == 6:
+		// the semicolon may follow any white space, line breaks and comments included
+		s.w(Pick(s.t, []string{"\n;\n", "\n  ; ", " // note\n;\n", "\r\n;\n"}, "eoslate"))
+		s.feat("semicolon")
+		s.feat("semicolon_after_newline")
 	case k == 0:
 		s.w(";")
 		s.feat("semicolon")
@@ -254,7 +260,8 @@ func (s *Speller) classRune(r rune, first bool) string {
 	case '\\':
 		return `\\`
 	case '^':
-		if first {
+		// (behind the inversion caret of [^...] a member caret may stand for itself)
+		if first && !(s.invClass && s.u(2, "rawcaret") == 0) {
 			return `\x5e`
 		}
 		return "^"
@@ -287,6 +294,7 @@ func (s *Speller) classRune(r rune, first bool) string {
 func (s *Speller) Class(e *Expr) string {
 	var b strings.Builder
 	b.WriteByte('[')
+	s.invClass = e.Inv
 	if e.Inv {
 		b.WriteByte('^')
 	}
